@@ -36,22 +36,29 @@ func emitHull(e *Emitter, r *Rng, stride int, flat []float64) {
 	if stride == 3 && r.chance(1, 2) {
 		l = geom.XYM
 	}
-	e.emit("C13.hull", fmt.Sprintf("(%d %s)", stride, sxCoord(flat)), guard(func() string {
-		in := append([]float64{}, flat...)
-		var g geom.T
-		if r.chance(1, 2) {
-			g = xy.ConvexHullFlat(l, in)
-		} else {
-			g = xy.ConvexHull(geom.NewLineStringFlat(l, in))
-		}
-		mod := "unmodified"
-		for i := range in {
-			if in[i] != flat[i] && !(in[i] != in[i] && flat[i] != flat[i]) {
-				mod = "modified"
+	viaFlat := r.chance(1, 2)
+	done := false
+	var g geom.T
+	mod := "unmodified"
+	// the hull geometry is kept and rendered again after later calls: it must stay the hull of its
+	// own input (a recycled scratch buffer would let a later call overwrite it)
+	e.emitR("C13.hull", fmt.Sprintf("(%d %s)", stride, sxCoord(flat)), func() string {
+		if !done {
+			in := append([]float64{}, flat...)
+			if viaFlat {
+				g = xy.ConvexHullFlat(l, in)
+			} else {
+				g = xy.ConvexHull(geom.NewLineStringFlat(l, in))
 			}
+			for i := range in {
+				if in[i] != flat[i] && !(in[i] != in[i] && flat[i] != flat[i]) {
+					mod = "modified"
+				}
+			}
+			done = true
 		}
 		return fmt.Sprintf("(%s %s)", hullObs(stride, g), mod)
-	}))
+	})
 }
 
 func genC13(r *Rng, e *Emitter, n int) {
